@@ -937,6 +937,220 @@ def bulk_iteration(props, pulled_by, key_of_item):
     return hook
 
 
+def _slot_sources(tag, acc=None):
+    """all slot references ( (mid, idx, sub) ) mentioned inside a provenance tag"""
+    if acc is None:
+        acc = []
+    if isinstance(tag, tuple):
+        if len(tag) == 4 and tag[0] in ('pair', 'slot') and isinstance(tag[1], str):
+            acc.append((tag[1], tag[2], tuple(tag[3])))
+        else:
+            for x in tag:
+                _slot_sources(x, acc)
+    return acc
+
+
+def clone_iteration(props):
+    """Map::clone: per element exactly one clone of the key and one of the value, written to the same index"""
+    def hook(E, body, key, st, seg):
+        it = Iteration(E, st, seg)
+        nm = body.name
+        calls = [e for e in seg if e[0] in ('user', 'opaque') and e[1].endswith('Clone::clone')]
+        writes = it.ev('write')
+        if not calls and not writes:
+            return
+        E.iter_classes['element'] += 1
+        z = st.zone
+        ok_w = len(writes) == 1
+        it_req(E, props, 'ONCE', ok_w, nm + ':iteration', 'exactly one slot of the copy must be written per source element', it)
+        if not ok_w:
+            return
+        w = writes[0]
+        dst_mid, d, (kt, vt) = w[1], w[2], w[3]
+        ks, vs = _slot_sources(kt), _slot_sources(vt)
+        ok = len(ks) == 1 and len(vs) == 1 and ks[0][0] == vs[0][0] != dst_mid and z.entails_eq(ks[0][1], vs[0][1]) \
+            and 'Clone::clone' in str(kt) and 'Clone::clone' in str(vt)
+        it_req(E, props, 'FLOW', ok, nm + ':iteration',
+               'the written key and value must be clones of the key and value of one and the same source slot', it)
+        if not ok:
+            return
+        whole = ks[0][2] == () and vs[0][2] == ()
+        parts = ks[0][2] == (0,) and vs[0][2] == (1,)
+        it_req(E, props, 'FLOW', (whole and kt[-1] == 0 and vt[-1] == 1) or parts, nm + ':iteration',
+               'the key must be cloned from the key and the value from the value', it)
+        it_req(E, props, 'ONCE', len(calls) == (1 if whole else 2), nm + ':iteration',
+               'each stored key and each stored value must be cloned exactly once', it)
+        it_req(E, props, 'FLOW', z.entails_eq(d, ks[0][1]), nm + ':iteration',
+               'element i of the source must be cloned into slot i of the copy', it)
+    return hook
+
+
+def h_clone_result(ctx, p):
+    nm = 'clone'
+    ctx.classes['cloned'] += 1
+    mid = map_in(p.E, p.val)
+    ms = p.st.maps.get(mid) if mid else None
+    src = p.ms
+    ok = ms is not None and src is not None and ms.len0 is None and mid != p.mid
+    ctx.req('FLOW', ok, nm, 'the clone must be a fresh container built inside the call (no shared storage)', p)
+    if ok:
+        ctx.req('OUT', p.z.entails_eq(ms.len, src.len), nm, 'the clone must have the length of the original', p)
+        ctx.req('OUT', p.untouched() and p.len_is(0), nm, 'cloning must not change the original', p)
+
+
+# ------------------------------------------------------------------------------ two-container quantifiers
+def _value_eq_answer(seg, X, h, Y, i, z):
+    """answer of V::eq between the value of slot h of X and the value of slot i of Y in this segment"""
+    for e in seg:
+        if e[0] != 'assume':
+            continue
+        tag, truth = _norm_answer(e[1], e[2])
+        if not (isinstance(tag, tuple) and len(tag) == 3 and tag[0] == 'eq'):
+            continue
+        sides = [tag[1], tag[2]]
+        def is_val(t, m, idx):
+            return isinstance(t, tuple) and len(t) == 4 and t[0] == 'slot' and t[1] == m and tuple(t[3]) == (1,) \
+                and z.entails_eq(t[2], idx)
+        if (is_val(sides[0], X, h) and is_val(sides[1], Y, i)) or (is_val(sides[1], X, h) and is_val(sides[0], Y, i)):
+            return truth
+    return None
+
+
+def _probe(E, st, seg):
+    """what the lookup started in this segment found: (X, 'hit', h, probe tag) | (X, 'miss', None, probe tag) | None"""
+    sl = [e for e in seg if e[0] == 'slice']
+    if not sl:
+        return None
+    X = sl[-1][1]
+    hits = [e for e in seg if e[0] == 'hit' and e[1] == X]
+    if hits:
+        return X, 'hit', hits[-1][2], hits[-1][3]
+    m = E.miss_complete(st, X)
+    if m is not None and m != ('<empty>',):
+        return X, 'miss', None, m
+    if m == ('<empty>',):
+        return X, 'miss', None, None
+    return X, 'unknown', None, None
+
+
+def quantifier_iteration(mode):
+    def mk(props):
+        def hook(E, body, key, st, seg):
+            pr = _probe(E, st, seg)
+            if pr is None:
+                return
+            it = Iteration(E, st, seg)
+            nm = body.name
+            X, kind, h, probe = pr
+            E.iter_classes['continued'] += 1
+            z = st.zone
+            src = probe if (isinstance(probe, tuple) and len(probe) == 4 and probe[0] == 'slot' and probe[1] != X
+                            and tuple(probe[3]) == (0,)) else None
+            if mode == 'disjoint':
+                it_req(E, props, 'POL', kind == 'miss', nm + ':continue',
+                       'the scan may continue only after the element was looked up in the other set and not found', it)
+                return
+            ok = kind == 'hit' and src is not None
+            it_req(E, props, 'POL', ok, nm + ':continue',
+                   'the scan may continue only after the element of one operand was found in the other operand', it)
+            if ok and mode == 'eq':
+                ans = _value_eq_answer(seg, X, h, src[1], src[2], z)
+                it_req(E, props, 'USERCALL', ans is True, nm + ':continue',
+                       'the scan may continue only after the two values stored under the matching keys compared equal', it)
+        return hook
+    return mk
+
+
+def h_quantifier(mode, outer_is):
+    """eq / is_subset / is_superset / is_disjoint: what each truth value is allowed to rest on"""
+    def h(ctx, p):
+        nm = ctx.body.name
+        E, st, z = p.E, p.st, p.z
+        A = p.subjects_all[0][0] if p.subjects_all and p.subjects_all[0] else None
+        B = p.subjects_all[1][0] if len(p.subjects_all) > 1 and p.subjects_all[1] else None
+        if A is None or B is None or A == B:
+            ctx.req('OUT', False, nm, 'cannot identify the two operand containers', p)
+            return
+        ma, mb = st.maps[A], st.maps[B]
+        quiet = all(not [e for e in p.events if e[0] in ('read', 'write', 'len', 'store') and e[1] == m]
+                    and not st.maps[m].contents for m in (A, B))
+        ctx.req('OUT', quiet and z.entails_eq(ma.len, ma.len0) and z.entails_eq(mb.len, mb.len0), nm,
+                'the comparison must not modify either operand', p)
+        slices = [e for e in p.events if e[0] == 'slice']
+        loops = [e for e in p.events if e[0] == 'loop']
+        outer_key = loops[0][1] if loops else None
+        last_loop = max([i for i, e in enumerate(p.events) if e[0] == 'loop' and e[1] == outer_key] or [-1])
+        tail = p.events[last_loop + 1:]
+        if is_bool(p.val, True):
+            ctx.classes['true'] += 1
+            ex = [e for e in p.events if e[0] == 'exhausted' and e[1] == 'all']
+            outer = slices[0] if slices else None
+            full = outer is not None and z.entails_eq(outer[2], 0) and z.entails_eq(outer[3], st.maps[outer[1]].len0)
+            if not slices and mode in ('subset', 'disjoint', 'eq'):
+                # nothing to scan: only acceptable when the scanned operand is empty
+                full = False
+            ok = bool(ex) and full
+            if ok and outer_is == 'self':
+                ok = outer[1] == A
+            if ok and outer_is == 'other':
+                ok = outer[1] == B
+            ctx.req('POL', ok, nm + ':true',
+                    'true may be returned only after every element of %s was examined'
+                    % {'self': 'the left operand', 'other': 'the right operand', 'either': 'one operand'}[outer_is], p)
+            if mode == 'eq':
+                ctx.req('RET-IMPLIES', z.entails_eq(ma.len0, mb.len0), nm + ':true',
+                        'true may be returned only when both operands have the same number of entries', p)
+            return
+        if is_bool(p.val, False):
+            ctx.classes['false'] += 1
+            pr = _probe(E, st, tail)
+            if pr is not None:
+                X, kind, h, probe = pr
+                src = probe if (isinstance(probe, tuple) and len(probe) == 4 and probe[0] == 'slot'
+                                and probe[1] != X) else None
+                if mode == 'disjoint':
+                    ok = kind == 'hit' and src is not None
+                    why = 'false requires an element of one operand that was found in the other'
+                elif mode == 'subset':
+                    ok = kind == 'miss' and src is not None
+                    why = 'false requires an element of the scanned operand that was looked up in the other and not found'
+                else:
+                    ok = (kind == 'miss' and src is not None) or (
+                        kind == 'hit' and src is not None
+                        and _value_eq_answer(tail, X, h, src[1], src[2], z) is False)
+                    why = 'false requires a key missing from the other operand or two values that compared unequal'
+                ctx.req('POL', ok, nm + ':false', why, p)
+                return
+            # no lookup on the deciding part of the path: a length shortcut
+            ctx.classes['shortcut'] += 1
+            conds = [e for e in p.events if e[0] == 'cond']
+            if mode == 'subset':
+                sub, sup = (ma, mb) if outer_is == 'self' else (mb, ma)
+                ctx.req('SHORTCUT', bool(conds) and z.entails_lt(sup.len0, sub.len0), nm + ':shortcut',
+                        'false without scanning is only sound when the would-be subset has more elements than the other set', p)
+            elif mode == 'eq':
+                ok = bool(conds) and not z.entails_eq(ma.len0, mb.len0) and any(
+                    ma.len0 in _terms(e[1]) and mb.len0 in _terms(e[1]) for e in conds)
+                ctx.req('SHORTCUT', ok, nm + ':shortcut',
+                        'false without scanning is only sound when the two lengths differ', p)
+            else:
+                ctx.req('SHORTCUT', False, nm + ':shortcut', 'is_disjoint has no sound shortcut to false', p)
+            return
+        ctx.req('OUT', False, nm, 'the result is not a definite boolean on this path', p)
+    return h
+
+
+def _terms(t, acc=None):
+    if acc is None:
+        acc = set()
+    if isinstance(t, Term):
+        acc.add(t)
+    elif isinstance(t, tuple):
+        for x in t:
+            _terms(x, acc)
+    return acc
+
+
 def _pulled_next(e):
     return (e[0] == 'next' and e[-1] == 'Some') or (e[0] == 'user' and e[1].endswith('::Iterator::next')) \
         or (e[0] == 'opaque' and e[1].endswith('::Iterator>::next'))
@@ -963,6 +1177,13 @@ ITER_HOOKS = {
     (SET, 'FromIterator', 'from_iter'): ({'C16'}, lambda pr: bulk_iteration(pr, _pulled_next, _item_of_next), {'item', 'hit', 'append'}),
     (MAP, 'From', 'from'): ({'C16'}, lambda pr: bulk_iteration(pr, _pulled_next, _item_of_next), {'item', 'hit', 'append'}),
     (SET, 'From', 'from'): ({'C16'}, lambda pr: bulk_iteration(pr, _pulled_next, _item_of_next), {'item', 'hit', 'append'}),
+    (MAP, 'Clone', 'clone'): ({'C15'}, clone_iteration, {'element'}),
+    (SET, 'Clone', 'clone'): ({'C15'}, clone_iteration, {'element'}),
+    (MAP, 'PartialEq', 'eq'): ({'C14'}, quantifier_iteration('eq'), {'continued'}),
+    (SET, 'PartialEq', 'eq'): ({'C14'}, quantifier_iteration('eq'), {'continued'}),
+    (SET, None, 'is_subset'): ({'C08'}, quantifier_iteration('subset'), {'continued'}),
+    (SET, None, 'is_superset'): ({'C08'}, quantifier_iteration('subset'), {'continued'}),
+    (SET, None, 'is_disjoint'): ({'C08'}, quantifier_iteration('disjoint'), {'continued'}),
     (SET, 'Extend', 'extend'): ({'C16', 'C07'}, lambda pr: bulk_iteration(pr, _pulled_cb, _item_of_cb), {'item', 'hit', 'append'}),
 }
 
@@ -1038,11 +1259,17 @@ def required_classes(key):
         return {'none', 'some'}
     if key[2] in ('size_hint', 'len', 'count') and key in HANDLERS:
         return {'hint'}
+    if key[2] == 'clone' and key[0] in (MAP, SET):
+        return {'cloned'}
     if key in HANDLERS and key[2] in ('iter', 'iter_mut', 'keys', 'values', 'values_mut', 'drain', 'into_iter',
                                       'into_keys', 'into_values', 'clone'):
         return {'made'}
     if key[2] == 'clear':
         return {'cleared'}
+    if key[2] in ('eq', 'is_subset', 'is_superset', 'is_disjoint') and key in HANDLERS:
+        return {'true', 'false'} | ({'shortcut'} if key[2] in ('eq', 'is_subset', 'is_superset') else set())
+    if key[2] == 'clone' and key[0] in (MAP, SET):
+        return {'cloned'}
     if key[2] in ('from_iter', 'from') and key in HANDLERS:
         return {'built'}
     return set()
@@ -1103,6 +1330,13 @@ HANDLERS.update({
     (SET, 'FromIterator', 'from_iter'): ({'C16'}, h_bulk_result),
     (MAP, 'From', 'from'): ({'C16'}, h_bulk_result),
     (SET, 'From', 'from'): ({'C16'}, h_bulk_result),
+    (MAP, 'Clone', 'clone'): ({'C15'}, h_clone_result),
+    (SET, 'Clone', 'clone'): ({'C15'}, h_clone_result),
+    (MAP, 'PartialEq', 'eq'): ({'C14'}, h_quantifier('eq', 'either')),
+    (SET, 'PartialEq', 'eq'): ({'C14'}, h_quantifier('eq', 'either')),
+    (SET, None, 'is_subset'): ({'C08'}, h_quantifier('subset', 'self')),
+    (SET, None, 'is_superset'): ({'C08'}, h_quantifier('subset', 'other')),
+    (SET, None, 'is_disjoint'): ({'C08'}, h_quantifier('disjoint', 'either')),
     (MAP, None, 'clear'): ({'C01'}, h_clear),
     (SET, None, 'clear'): ({'C07'}, h_clear),
 })
@@ -1139,6 +1373,7 @@ def check_root(E, body, rr):
         for s, val in rets:
             p = Path(E, body, s, val, first, dict(tags))
             p.self0 = self0
+            p.subjects_all = subj
             p.args0 = rr.args
             p.idx0 = None
             p.variant_fields = {}
